@@ -4,7 +4,7 @@
  * The FSM state under proof is assigned concretely (symbolic execution then prunes the switch). */
 #include "l1_env.h"
 #ifdef JOB_STATE
-#define EV_GHOST_CLAUSE (G_HES == self->hold_exit_status && (g_w >= H_CAPU || G_UBYTE == UBUFP[g_w]) && G_EV.rd_calls == E.rd_calls && G_EV.wr_calls == E.wr_calls && G_EV.h_calls == E.h_calls && G_EV.vw_calls == E.vw_calls && G_EV.vr_calls == E.vr_calls)
+#define EV_GHOST_CLAUSE (G_HES == self->hold_exit_status && (g_w >= H_CAPU || G_UBYTE == UBUFP[g_w]) && G_EV.wr_ok == E.wr_ok && G_EV.h_ret == E.h_ret && G_EV.reent_trig == E.reent_trig && G_EV.rd_calls == E.rd_calls && G_EV.wr_calls == E.wr_calls && G_EV.h_calls == E.h_calls && G_EV.vw_calls == E.vw_calls && G_EV.vr_calls == E.vr_calls)
 #else
 #define EV_GHOST_CLAUSE 1
 #endif
